@@ -406,12 +406,12 @@ func Eq(a, b *Term) *Term {
 			return Not(a)
 		}
 	}
-	// eq(ite(c,k1,k2), k) with constants
-	if b.IsConst() && a.Op == OIte && a.Args[1].IsConst() && a.Args[2].IsConst() {
-		return Ite(a.Args[0], Eq(a.Args[1], b), Eq(a.Args[2], b))
+	// eq(T, k) where T is an ite-tree with constant leaves: push the comparison to the leaves
+	if b.IsConst() && a.Op == OIte && iteConstTree(a, 64) > 0 {
+		return pushEqConst(a, b)
 	}
-	if a.IsConst() && b.Op == OIte && b.Args[1].IsConst() && b.Args[2].IsConst() {
-		return Ite(b.Args[0], Eq(b.Args[1], a), Eq(b.Args[2], a))
+	if a.IsConst() && b.Op == OIte && iteConstTree(b, 64) > 0 {
+		return pushEqConst(b, a)
 	}
 	if a.ID > b.ID {
 		a, b = b, a
@@ -420,6 +420,33 @@ func Eq(a, b *Term) *Term {
 }
 
 func Ne(a, b *Term) *Term { return Not(Eq(a, b)) }
+
+// iteConstTree: number of nodes of t if it is an ite-tree whose leaves are all constants and
+// which has at most budget nodes; 0 otherwise
+func iteConstTree(t *Term, budget int) int {
+	if t.IsConst() {
+		return 1
+	}
+	if t.Op != OIte || budget <= 0 {
+		return 0
+	}
+	l := iteConstTree(t.Args[1], budget-1)
+	if l == 0 {
+		return 0
+	}
+	r := iteConstTree(t.Args[2], budget-1-l)
+	if r == 0 {
+		return 0
+	}
+	return 1 + l + r
+}
+
+func pushEqConst(t, k *Term) *Term {
+	if t.IsConst() {
+		return BoolC(t.C == k.C)
+	}
+	return Ite(t.Args[0], pushEqConst(t.Args[1], k), pushEqConst(t.Args[2], k))
+}
 
 func binFold(op Op, x, y uint64, w int) (uint64, bool) {
 	m := mask(w)
